@@ -14,7 +14,7 @@ import (
 )
 
 // injectFailures makes a random non-empty subset of targets fail, by different mechanisms.
-func injectFailures(r *rng.R, s *spec.Spec, e *Env) map[string]string {
+func injectFailures(r *rng.R, s *spec.Spec, e *Env, timeoutPct int) map[string]string {
 	kinds := map[string]string{}
 	n := r.Range(1, max(1, len(s.Targets)/3))
 	idx := make([]int, len(s.Targets))
@@ -24,7 +24,18 @@ func injectFailures(r *rng.R, s *spec.Spec, e *Env) map[string]string {
 	rng.Shuffle(r, idx)
 	for _, i := range idx[:n] {
 		t := s.Targets[i]
-		switch r.Intn(5) {
+		kind := r.Intn(6)
+		if r.Intn(100) < timeoutPct {
+			kind = 3
+		}
+		switch kind {
+		case 5:
+			// exits 0 but removes the marker its own output check asserts (the check passed
+			// when the build started)
+			m := "markers/okb_" + t.Name
+			t.Checks = append(t.Checks, spec.Check{Marker: m, Shape: rng.Pick(r, []string{"", "and"})})
+			t.Untouch, t.UntouchIf = m, "markers/break_"+t.Name
+			kinds[t.Label()] = "failing-output-check(broken-by-the-command)"
 		case 0:
 			t.FailIf = "markers/fail_" + t.Name
 			kinds[t.Label()] = "exit-nonzero"
@@ -73,17 +84,30 @@ func setFailureMarkers(e *Env, s *spec.Spec, failing bool) {
 			e.SetMarker(t.SleepIf, failing)
 		}
 		for _, c := range t.Checks {
+			if c.Marker == t.Untouch {
+				e.SetMarker(c.Marker, true) // holds when the build starts; the command breaks it
+				continue
+			}
 			e.SetMarker(c.Marker, !failing)
+		}
+		if t.UntouchIf != "" {
+			e.SetMarker(t.UntouchIf, failing)
 		}
 	}
 }
 
 // C05Part is the process-level part of C05 (the report is owned by the caller).
 func C05Part(run *report.Run, st *Setup, tier string) {
-	n := tierN(tier, 48, 600)
+	FailurePatternPart(run, st, tierN(tier, 48, 600), "C05", map[string]bool{"exec": true, "exit": true})
+}
+
+// FailurePatternPart: random failing subsets x failure kinds x keep-going / fail-fast over three
+// builds (two failing, one after the causes were removed); judge selects what the caller judges
+// (C05: executed sets and exit status; C04: termination - hang and crash).
+func FailurePatternPart(run *report.Run, st *Setup, n int, stream string, judge map[string]bool) {
 	var abandoned atomic.Int32
 	Parallel(n, func(i int) {
-		r := rng.Derive(uint64(run.Seed), "C05", fmt.Sprint(i))
+		r := rng.Derive(uint64(run.Seed), stream, fmt.Sprint(i))
 		pf := spec.DefaultProfile()
 		pf.MinTargets, pf.MaxTargets, pf.EdgeProb, pf.SleepMs = 5, 12, 30, 40
 		s := spec.Gen(r, pf)
@@ -104,7 +128,11 @@ func C05Part(run *report.Run, st *Setup, tier string) {
 		}()
 		hookLog := filepath.Join(env.Dir, "hooks.jsonl")
 		env.M.ExtraEnv = append(env.M.ExtraEnv, "GROG_VERIF_LOG="+hookLog)
-		kinds := injectFailures(r, s, env)
+		timeoutPct := 0
+		if !judge["exec"] {
+			timeoutPct = 40 // termination is the subject: timeouts are the failure mode that involves the context machinery
+		}
+		kinds := injectFailures(r, s, env, timeoutPct)
 		setFailureMarkers(env, s, true)
 		// sometimes warm the cache first with a successful build, so that failing targets have
 		// an older successful entry for a different state
@@ -114,6 +142,9 @@ func C05Part(run *report.Run, st *Setup, tier string) {
 			fl = append(fl, l+"="+k)
 		}
 		sort.Strings(fl)
+		for _, k := range kinds {
+			run.Count("injected_failure_kind:"+k, 1)
+		}
 		env.Logf("failing: %v fail_fast=%v", fl, failFast)
 		report1 := func(v Violation, obs *Obs) {
 			keep = !run.Violation(v.Sig, v.What, mkReplay(i, env, obs)) || keep
@@ -123,6 +154,8 @@ func C05Part(run *report.Run, st *Setup, tier string) {
 			if phase == 2 {
 				setFailureMarkers(env, s, false)
 				env.Logf("failure causes removed")
+			} else if phase == 1 {
+				setFailureMarkers(env, s, true) // conditions broken by commands hold again at the start
 			}
 			_ = os.Remove(hookLog)
 			p, obs, vs, err := env.Step(BuildOpts{}, cfg, fmt.Sprintf("phase%d", phase), false)
@@ -141,8 +174,8 @@ func C05Part(run *report.Run, st *Setup, tier string) {
 			run.Count("builds", 1)
 			bad := false
 			for _, v := range vs {
-				switch v.Kind {
-				case "exec", "exit":
+				switch {
+				case judge[v.Kind]:
 					report1(v, obs)
 					bad = true
 				default:
@@ -152,7 +185,7 @@ func C05Part(run *report.Run, st *Setup, tier string) {
 				}
 			}
 			// failed targets must be named in grog's output
-			if p.ExpectFail && !bad {
+			if p.ExpectFail && !bad && judge["exit"] {
 				out := obs.Res.Stdout + obs.Res.Stderr
 				nfail, nskip, nbuilt := 0, 0, 0
 				for l := range p.Selected {
